@@ -42,6 +42,10 @@ CHECKS = {
                 technique="deterministic simulation: seeded elimination-order / RNG-outcome / hash-seed search with junction-tree axioms as invariants",
                 text="seeded exploration over clique sets up to 9 attributes and all three elimination-order modes (None, permutation, int with SimRNG outcomes incl. adversarial); every constructed tree is checked against the junction-tree axioms and the message schedule against the dependency order by independent code.",
                 note="axioms implemented in sim/refmodel.py; sampling, not exhaustive enumeration"),
+    "C11": dict(engine="sampler", ref="3 (Engine E)",
+                technique="deterministic simulation: synthetic_data under simulator-chosen (faithful and adversarial) RNG outcomes; chain-rule identity at the seam, structural rounding bound",
+                text="seeded exploration: random models with zero-probability cells, row counts 1..1e5 (1e6 thorough), both methods; the simulator decides every choice/shuffle outcome (faithful, lowest/highest-probability subsets, degenerate shuffles, all-records-in-rarest-cell). Row count, value ranges and zero support are checked on every run; sampling mode by the exact chain-rule identity over the recorded choice events; rounding mode by a rows-independent structural bound at one or two row counts.",
+                note="adversarial outcomes restricted to positive-probability ones; bound derivation in DESIGN.md Engine E; reference joint by sim/refmodel.py"),
     "C02": dict(engine="query-hist", ref="3 (Engine B)",
                 technique="deterministic simulation: generated query/cache/save-load histories with I/O fault injection, refinement against the explicit joint",
                 text="seeded histories of project / calculate_many_marginals / krondot / datavector / save+load on one model object (direct parameters or returned by estimate); after every operation the answer is compared with the explicit joint in the requested axis order; save/load goes through an in-memory file system that injects write errors, lost tails and read errors.",
